@@ -360,16 +360,19 @@ func (db *DB) AcquireRemoteHaltLock(ctx context.Context, lockID int64) (_ *HaltL
 		}
 	}()
 
+	// Wait for local node to catch up to remote position. The lock is not
+	// stored before that: the node must not accept writes while it is behind,
+	// the transactions it still has to apply would be taken for a sign that
+	// the lock is gone, and a failed wait must not leave the lock behind.
+	if err := db.WaitPosExact(cctx, haltLock.Pos); err != nil {
+		return nil, fmt.Errorf("wait: %w", err)
+	}
+
 	// Store the remote lock so we can use it for commits. This may overwrite
 	// but there should only be one halt lock at any time since there can only
 	// be one primary. If a race condition occurs and the halt lock is replaced
 	// with a dead one then the next commit will simply be rejected.
 	db.remoteHaltLock.Store(haltLock)
-
-	// Wait for local node to catch up to remote position.
-	if err := db.WaitPosExact(cctx, haltLock.Pos); err != nil {
-		return nil, fmt.Errorf("wait: %w", err)
-	}
 
 	other := *haltLock
 	return &other, nil
